@@ -56,6 +56,7 @@ def guard_slice(f, cfg, node, depth=0, seen=None):
                     continue
                 for a in cfg.live:
                     if isinstance(a.ast, ast.Assign) and any(isinstance(tt, ast.Name) and tt.id == nm for tt in a.ast.targets):
+                        out.append((a.ast.value, "assign", a))  # data dependence on the assigned expression
                         out += guard_slice(f, cfg, a, depth + 1, seen)
         elif t.kind == "for_next":
             out.append((t.ast.iter, "loop:" + lab, t))
